@@ -124,6 +124,22 @@ CLAIMED.update({
         note=TRUST + "permute_cluster_charges is outside (not encodable within reach); the block move's disregard of `frozen` is a recorded known finding."),
 })
 
+CLAIMED.update({
+    "C18": dict(
+        technique="inductive step: the body of the Wang-Landau loop taken from the AST of run_normal_WL is executed symbolically once from an arbitrary state (symx) + SMT (z3); exp/log/sqrt uninterpreted; RNG and moves nondeterministic",
+        text="From arbitrary g, H, f > 1, walker bin, counters and an arbitrary proposal kappa and uniform draws, one loop iteration is proved to follow the update rule: out-of-range proposals are never accepted "
+             "and not counted; in-range proposals are accepted exactly when the draw is below min(1, exp(g_old - g_new)); ln f and 1 are added at the occupied bin only; f -> sqrt f and histogram reset exactly at a "
+             "scheduled check with every bin >= flatcrit x mean; the loop continues exactly while f > convergence; bin centres are midpoints; returned array / DOS files carry (centres, g). "
+             "Real seeded runs are checked step by step against the same rule through the guarded trace hook.",
+        note=TRUST + "Whole-run convergence and sampling statistics are outside; the moves themselves are C17's subject."),
+    "C19": dict(
+        technique="symbolic execution of the real plotting code (symx) against a recording pyplot stub + SMT (z3) for the region geometry",
+        text="All 12 plots-module entry points, the 4 diagram/Uversky object methods and the 8 linear-profile methods are executed symbolically (symbolic coordinates / sequences, symbolic limits) with pyplot "
+             "replaced by a recorder: markers at the true coordinates, requested title, limits, labels, legend, savefig arguments, figure returned with getFig; bar positions and heights equal the get_linear_* profile. "
+             "The polygons recorded from finalize_DasPappu are proved to contain every real point (f+, f-) of the region the exact classifier assigns.",
+        note=TRUST + "What matplotlib renders for the recorded calls is outside; counterexamples are replayed with real matplotlib (Agg)."),
+})
+
 REASON_PENDING = "check not built yet (framework under construction); see DESIGN.md section 5 for the plan"
 
 
@@ -173,7 +189,7 @@ def main():
 
 
 NA = {}
-HOOK_COMMITS = []
+HOOK_COMMITS = ["c966d03"]
 
 if __name__ == "__main__":
     main()
